@@ -1236,8 +1236,255 @@ fn c03_redescribe(t: &[&str]) -> Option<String> {
     Some("ok holds".to_string())
 }
 
+// ------------------------------------------------------------------ C09 / C10 / C11 / C20 (CLI)
+
+/// C11: text round trip of a state through the crate's own (de)serialiser: <state>
+fn c11_roundtrip(t: &[&str]) -> Option<String> {
+    let mut k = crate::exec::Toks::new(t);
+    let st = match crate::state::parse_state(&mut k)? {
+        Ok(s) => s,
+        Err(_) => return Some("ok holds invalid-request".to_string()),
+    };
+    Some(match crate::io::roundtrip_check(&st) {
+        Ok(()) => "ok holds".to_string(),
+        Err(e) => format!("ok FAILS {}", e),
+    })
+}
+
+/// C11: the SVG places the shape at the Cartesian transforms of the state and its 8 nearest
+/// lattice images, computed here independently from the parameters: <state>
+fn c11_svg(t: &[&str]) -> Option<String> {
+    let mut k = crate::exec::Toks::new(t);
+    let st = match crate::state::parse_state(&mut k)? {
+        Ok(s) => s,
+        Err(_) => return Some("ok holds invalid-request".to_string()),
+    };
+    svg_of_state(&st, &crate::io::state_svg(&st))
+}
+
+fn svg_of_state(st: &crate::state::AnyState, text: &str) -> Option<String> {
+    let geo = state_geo(st)?;
+    let uses = crate::io::svg_uses(text);
+    let mut want: Vec<(String, String, [f64; 6])> = vec![];
+    let order: Vec<(i64, i64)> = (-1..=1).flat_map(|n| (-1..=1).map(move |m| (n, m))).collect();
+    for (n, m) in order.iter() {
+        want.push(("#cell".into(), "".into(), [1.0, 0.0, 0.0, 1.0, *n as f64 * geo.a.0 + *m as f64 * geo.b.0, *n as f64 * geo.a.1 + *m as f64 * geo.b.1]));
+    }
+    for (lin, pos) in geo.copies.iter() {
+        want.push(("#mol".into(), "blue".into(), [lin[0], lin[2], lin[1], lin[3], pos.0, pos.1]));
+        for (n, m) in order.iter().filter(|nm| **nm != (0, 0)) {
+            want.push(("#mol".into(), "green".into(), [lin[0], lin[2], lin[1], lin[3], pos.0 + *n as f64 * geo.a.0 + *m as f64 * geo.b.0, pos.1 + *n as f64 * geo.a.1 + *m as f64 * geo.b.1]));
+        }
+    }
+    if uses.len() != want.len() {
+        return Some(format!("ok FAILS the SVG has {} <use> elements, expected {}", uses.len(), want.len()));
+    }
+    let scale = 1.0 + geom::norm(geo.a) + geom::norm(geo.b);
+    for (i, (u, w)) in uses.iter().zip(want.iter()).enumerate() {
+        if u.0 != w.0 || u.1 != w.1 {
+            return Some(format!("ok FAILS <use> {} is {}/{} expected {}/{}", i, u.0, u.1, w.0, w.1));
+        }
+        if u.2.len() != 6 {
+            return Some(format!("ok FAILS <use> {} has no matrix(a b c d e f)", i));
+        }
+        for j in 0..6 {
+            // the wrap of a coordinate within rounding of a face may differ by one cell: compare the
+            // translation modulo the lattice for #mol entries
+            if (u.2[j] - w.2[j]).abs() > 1e-9 * scale {
+                if j >= 4 && w.0 == "#mol" {
+                    let d = (u.2[4] - w.2[4], u.2[5] - w.2[5]);
+                    let det = geom::cross(geo.a, geo.b);
+                    let fm = (geo.a.0 * d.1 - geo.a.1 * d.0) / det;
+                    let fn_ = (d.0 * geo.b.1 - d.1 * geo.b.0) / det;
+                    if (fn_ - fn_.round()).abs() < 1e-9 && (fm - fm.round()).abs() < 1e-9 && fn_.abs() < 1.5 && fm.abs() < 1.5 && is_face_case(st) {
+                        continue;
+                    }
+                }
+                return Some(format!("ok FAILS <use> {} matrix entry {} is {:e}, the structure has {:e}", i, j, u.2[j], w.2[j]));
+            }
+        }
+    }
+    Some("ok holds".to_string())
+}
+
+/// some fractional coordinate of some copy lies within rounding of a cell face
+fn is_face_case(st: &crate::state::AnyState) -> bool {
+    let rel: Vec<Matrix3<f64>> = match st {
+        crate::state::AnyState::HardLine(s) => s.relative_positions().map(|t| mat_of(&t)).collect(),
+        crate::state::AnyState::HardMol(s) => s.relative_positions().map(|t| mat_of(&t)).collect(),
+        crate::state::AnyState::LJ(s) => s.relative_positions().map(|t| mat_of(&t)).collect(),
+    };
+    rel.iter().any(|m| (m[(0, 2)].abs() - 0.5).abs() < 1e-9 || (m[(1, 2)].abs() - 0.5).abs() < 1e-9)
+}
+
+/// what the binary wrote, as a state of the right type
+fn cli_state(args: &[&str], json: &str) -> Option<crate::state::AnyState> {
+    // args: replications steps inner kt_start kt_finish kt_ratio max_step conv group potential shape…
+    let potential = *args.get(9)?;
+    let shape = *args.get(10)?;
+    Some(match (shape, potential) {
+        ("polygon", "Hard") => crate::state::AnyState::HardLine(serde_json::from_str(json).ok()?),
+        (_, "Hard") => crate::state::AnyState::HardMol(serde_json::from_str(json).ok()?),
+        (_, _) => crate::state::AnyState::LJ(serde_json::from_str(json).ok()?),
+    })
+}
+
+/// C10/C11/C20 on one invocation of the real binary (args as for `cli run` without the threads
+/// token): exit status / files / labels / copies / logged score / SVG; with `more > 0` also the
+/// same invocation with `replications + more` (prefix monotonicity).
+fn cli_check(t: &[&str]) -> Option<String> {
+    let pid = *t.get(0)?;
+    let more: u64 = t.get(1)?.parse().ok()?;
+    let a = &t[2..];
+    let args = crate::io::cli_args(a)?;
+    let r = crate::io::run_cli(&args, None)?;
+    let reps: u64 = a.get(0)?.parse().ok()?;
+    let group = *a.get(8)?;
+    let (potential, shape) = (*a.get(9)?, *a.get(10)?);
+    let expect_error = reps == 0 || (shape == "polygon" && potential == "LJ") || (shape == "polygon" && a.get(11).and_then(|x| x.parse::<u64>().ok()).map_or(true, |n| n < 3));
+    match r.status {
+        Some(101) | None => return Some(if pid == "C20" { format!("ok FAILS the process panicked / was killed: {}", r.stderr.lines().last().unwrap_or("")) } else { "ok holds (panic is a C20 matter)".to_string() }),
+        Some(0) => {
+            if r.json.is_none() || r.svg.is_none() {
+                return Some(if pid == "C20" { "ok FAILS exit status 0 without both output files".to_string() } else { "ok holds".to_string() });
+            }
+            if expect_error && pid == "C20" {
+                return Some("ok FAILS exit status 0 for an invocation that must be an error".to_string());
+            }
+        }
+        Some(_) => {
+            if pid == "C20" && (r.json.is_some() || r.stderr.trim().is_empty()) && !expect_error {
+                return Some(format!("ok FAILS non-zero exit status for a valid invocation: {}", r.stderr.lines().last().unwrap_or("")));
+            }
+            if pid == "C20" && r.stderr.trim().is_empty() {
+                return Some("ok FAILS non-zero exit status without an error message".to_string());
+            }
+            return Some("ok holds error-exit".to_string());
+        }
+    }
+    let json = r.json.as_ref()?;
+    let st = match cli_state(a, json) {
+        Some(s) => s,
+        None => return Some(if pid == "C11" { "ok FAILS the written JSON does not deserialise".to_string() } else { "ok holds".to_string() }),
+    };
+    let score = crate::state::state_score(&st);
+    let logged = r.stderr.lines().filter_map(|l| l.split("Final score: ").nth(1)).last().and_then(|x| x.trim().parse::<f64>().ok());
+    if pid == "C10" {
+        match (score, logged) {
+            (Some(s), Some(l)) if s.to_bits() == l.to_bits() => {}
+            _ => return Some(format!("ok FAILS logged final score {:?} is not the score {:?} of the written structure", logged, score)),
+        }
+        let v: serde_json::Value = serde_json::from_str(json).ok()?;
+        let (rfam, rops, _) = reference(group)?;
+        if v["wallpaper"]["name"].as_str()? != group {
+            return Some(format!("ok FAILS written group name {} for requested group {}", v["wallpaper"]["name"], group));
+        }
+        if v["wallpaper"]["family"].as_str()? != rfam || v["cell"]["family"].as_str()? != rfam {
+            return Some(format!("ok FAILS written family {} / {} for group {} ({})", v["wallpaper"]["family"], v["cell"]["family"], group, rfam));
+        }
+        let want_shape = match shape { "polygon" => "Polygon", "circle" => "circle", _ => "Trimer" };
+        if v["shape"]["name"].as_str()? != want_shape {
+            return Some(format!("ok FAILS written shape {} for subcommand {}", v["shape"]["name"], shape));
+        }
+        let copies: usize = v["occupied_sites"].as_array()?.iter().map(|s| s["wyckoff"]["symmetries"].as_array().map_or(0, |x| x.len())).sum();
+        if copies != rops.len() {
+            return Some(format!("ok FAILS {} copies written for a group of order {}", copies, rops.len()));
+        }
+        if more > 0 {
+            let mut a2: Vec<String> = a.iter().map(|x| x.to_string()).collect();
+            a2[0] = format!("{}", reps + more);
+            let a2r: Vec<&str> = a2.iter().map(|x| x.as_str()).collect();
+            let r2 = crate::io::run_cli(&crate::io::cli_args(&a2r)?, None)?;
+            let s2 = r2.json.as_ref().and_then(|j| cli_state(&a2r, j)).and_then(|s| crate::state::state_score(&s));
+            match (score, s2) {
+                (Some(x), Some(y)) if y >= x => {}
+                _ => return Some(format!("ok FAILS {} replications score {:?} but {} replications score {:?}", reps, score, reps + more, s2)),
+            }
+        }
+    }
+    if pid == "C11" {
+        if let Err(e) = crate::io::roundtrip_check(&st) {
+            return Some(format!("ok FAILS written structure: {}", e));
+        }
+        // the written text itself re-serialises identically
+        if crate::io::state_json(&st).as_deref() != Some(json.as_str()) {
+            return Some("ok FAILS re-serialising the written file gives different text".to_string());
+        }
+        return svg_of_state(&st, r.svg.as_ref()?);
+    }
+    Some("ok holds".to_string())
+}
+
+/// C09: the same invocation under different thread counts and in fresh processes gives
+/// byte-identical files: args as for `cli run` without the threads token
+fn c09_threads(t: &[&str]) -> Option<String> {
+    let args = crate::io::cli_args(t)?;
+    let base = crate::io::run_cli(&args, Some(1))?;
+    for n in [1usize, 2, 3, 4, 8, 16].iter() {
+        let r = crate::io::run_cli(&args, Some(*n))?;
+        if r.status != base.status || r.json != base.json || r.svg != base.svg {
+            return Some(format!("ok FAILS output differs between 1 and {} worker threads", n));
+        }
+    }
+    Some("ok holds".to_string())
+}
+
+/// C09: several different optimisations run concurrently in a rayon pool give bit-identical
+/// results to running each alone, and optimising a clone never changes the original:
+/// <nthreads> <k> then k × (<cfg> crystal <state> ;)
+fn c09_pool(t: &[&str]) -> Option<String> {
+    use rayon::prelude::*;
+    let nthreads: usize = t.get(0)?.parse().ok()?;
+    let rest = &t[1..];
+    let jobs: Vec<Vec<&str>> = rest.split(|x| *x == ";").filter(|j| !j.is_empty()).map(|j| j.to_vec()).collect();
+    let parse = |j: &Vec<&str>| -> Option<(crate::opt::CfgReq, crate::state::AnyState)> {
+        let mut k = crate::exec::Toks::new(j);
+        let cfg = crate::opt::CfgReq::parse(&mut k)?;
+        if k.s()? != "crystal" {
+            return None;
+        }
+        let st = crate::state::parse_state(&mut k)?.ok()?;
+        if !matches!(crate::state::state_score(&st), Some(x) if x.is_finite()) {
+            return None;
+        }
+        Some((cfg, st))
+    };
+    let parsed: Vec<(crate::opt::CfgReq, crate::state::AnyState)> = jobs.iter().filter_map(parse).collect();
+    if parsed.is_empty() {
+        return Some("ok holds no-valid-job".to_string());
+    }
+    let run = |(cfg, st): &(crate::opt::CfgReq, crate::state::AnyState)| -> String {
+        let before = crate::io::state_json(st).unwrap_or_default();
+        let (r, _l, v) = crate::state::run_any(cfg, st.clone(), false);
+        let after = crate::io::state_json(st).unwrap_or_default();
+        if before != after {
+            return "ORIGINAL-CHANGED".to_string();
+        }
+        format!("{} {}", r, v.map(|x| x.to_string()).unwrap_or_default())
+    };
+    let alone: Vec<String> = parsed.iter().map(run).collect();
+    if alone.iter().any(|x| x == "ORIGINAL-CHANGED") {
+        return Some("ok FAILS optimising a copy changed the original state".to_string());
+    }
+    let pool = rayon::ThreadPoolBuilder::new().num_threads(nthreads.max(1)).build().ok()?;
+    // every job three times, interleaved, so that replicas of equal and different states overlap
+    let idx: Vec<usize> = (0..parsed.len() * 3).map(|i| i % parsed.len()).collect();
+    let together: Vec<(usize, String)> = pool.install(|| idx.par_iter().map(|i| (*i, run(&parsed[*i]))).collect());
+    for (i, r) in together {
+        if r != alone[i] {
+            return Some(format!("ok FAILS job {} gives a different result when run concurrently on {} threads", i, nthreads));
+        }
+    }
+    Some("ok holds".to_string())
+}
+
 pub fn oracle(t: &[&str]) -> Option<String> {
     match *t.get(0)? {
+        "c11_roundtrip" => c11_roundtrip(&t[1..]),
+        "c11_svg" => c11_svg(&t[1..]),
+        "cli_check" => cli_check(&t[1..]),
+        "c09_threads" => c09_threads(&t[1..]),
+        "c09_pool" => c09_pool(&t[1..]),
         "c03_latticesum" => c03_latticesum(&t[1..]),
         "c03_redescribe" => c03_redescribe(&t[1..]),
         "c02_area" => c02_area(&t[1..]),
